@@ -33,6 +33,11 @@ class MPUFileSink:
         self._dst = dst
         self._parts_dir = parts_dir
         self._limits = limits
+        if self.max_part <= self.min_part or self.max_write_sz <= self.min_write_sz:
+            raise ValueError(
+                f"Inconsistent limits: part {self.min_part}..{self.max_part}, "
+                f"write size {self.min_write_sz}..{self.max_write_sz}"
+            )
 
     @property
     def min_write_sz(self) -> int:
